@@ -83,3 +83,10 @@ Theorem abs_guard_total q delta : sqrt_arg_ok (Rabs (q + delta)).
 Proof. apply Rabs_pos. Qed.
 Theorem unguarded_sqrt_refuted : exists q delta, 0 <= q /\ Rabs delta <= 1 / 1000000 /\ ~ sqrt_arg_ok (q + delta).
 Proof. exists 0, (- (1 / 1000000)). split; [lra|]. split; [rewrite Rabs_Ropp, Rabs_pos_eq; lra | unfold sqrt_arg_ok; lra]. Qed.
+
+(* CMTF, documented squared form:  tl.norm(X - cp)**2 + tl.norm(Y - cp_Y)**2  is the sum of the two squared residuals *)
+Definition cmtf_reported (sX sY : list nat) (X LX Y LY : list nat -> R) : R :=
+  sqrt (dist2 Rops sX X LX) * sqrt (dist2 Rops sX X LX) + sqrt (dist2 Rops sY Y LY) * sqrt (dist2 Rops sY Y LY).
+Theorem cmtf_reported_value sX sY X LX Y LY :
+  cmtf_reported sX sY X LX Y LY = dist2 Rops sX X LX + dist2 Rops sY Y LY.
+Proof. unfold cmtf_reported. rewrite !sqrt_sqrt by apply dist2_nonneg. reflexivity. Qed.
